@@ -9,7 +9,7 @@ variable {pf : Bool}
 theorem inv_storeT {s : State} {i : Nat} {th : Th} {a : Abs} {K : Prog}
     (hI : Inv pf s) (hth : s.ths[i]? = some th) (hok : ThOK i s.sh th a)
     (hc : a.canWrite = true) (hwl : a.wl = true) (hwp : a.wp = true)
-    (hK : safe pf { a with k := .nonraw, wl := false, wp := false } K = true) :
+    (hK : safe pf { a with k := .nonraw, wl := false, wp := false, wc := false } K = true) :
     Inv pf ⟨(execOp i s.sh th .storeT K).1, s.ths.set i (execOp i s.sh th .storeT K).2⟩ := by
   have hG := hI.1
   obtain ⟨hk, hlk, hW, hw, ht, htv⟩ := canWrite_info hok hc
@@ -37,7 +37,7 @@ theorem inv_storeT {s : State} {i : Nat} {th : Th} {a : Abs} {K : Prog}
       simp only [Sh.record, hg]
       obtain ⟨_, e2, e3⟩ := hG.gRaw ht
       rw [hflags.1, hwl] at e2
-      rw [hflags.2, hwp] at e3
+      rw [hflags.2.1, hwp] at e3
       exact ⟨trivial, e2, e3⟩
     · intro _ b hb hbw
       simp only [Sh.record] at hb ⊢
@@ -88,8 +88,8 @@ theorem inv_storeT {s : State} {i : Nat} {th : Th} {a : Abs} {K : Prog}
         · simp only [hij, if_false] at hj
           exact hG.own b hb thj hj
   · refine ⟨_, hK, ?_⟩
-    refine { hW := hok.hW, hR := hok.hR, lkHeld := hok.lkHeld, wlw := fun _ => ⟨rfl, rfl⟩,
-             wlH := (by intro h; cases h), wpH := (by intro h; cases h),
+    refine { hW := hok.hW, hR := hok.hR, lkHeld := hok.lkHeld, wlw := fun _ => ⟨rfl, rfl, rfl⟩,
+             wlH := (by intro h; cases h), wpH := (by intro h; cases h), wcH := (by intro h; cases h),
              nofault := hok.nofault, mread := hok.mread, lv := hok.lv, know := ?_, view := ?_,
              tvok := (by intro v g h; injection h with h; injection h with h1 _; rw [← h1]; decide) }
     · unfold KnowOK
